@@ -214,7 +214,7 @@ func applyStep(w *world, in *caseIn, step *v1beta1.TrafficRoutingStrategy, res *
 	ctx := context.TODO()
 	ensure := func() (done bool, err error, pi *core.PanicInfo, writes []writeRec) {
 		w.rec.reset()
-		for attempt := 0; attempt < 4; attempt++ {
+		for attempt := 0; attempt < 8; attempt++ {
 			pi = core.Try(func() { done, err = w.prov.EnsureRoutes(ctx, step.DeepCopy()) })
 			res.Count("ensure_calls", 1)
 			// the Lua VM has a 1 s wall-clock budget; none of the scripts here loops, so a deadline error is CPU
@@ -335,7 +335,14 @@ func blameRef(in *caseIn, step *v1beta1.TrafficRoutingStrategy, class string) st
 			continue
 		}
 		var e error
-		if pi := core.Try(func() { _, e = w.prov.EnsureRoutes(context.TODO(), step.DeepCopy()) }); pi != nil {
+		var pi *core.PanicInfo
+		for attempt := 0; attempt < 8; attempt++ { // see applyStep: a deadline error is CPU starvation, ask again
+			pi = core.Try(func() { _, e = w.prov.EnsureRoutes(context.TODO(), step.DeepCopy()) })
+			if pi != nil || e == nil || !strings.Contains(e.Error(), "context deadline exceeded") {
+				break
+			}
+		}
+		if pi != nil {
 			continue
 		}
 		if c, ok := luaErrClass(e); ok && c == class {
@@ -385,6 +392,10 @@ func runOnce(in *caseIn, res *core.CaseResult) {
 			break
 		}
 		if oc.err != nil {
+			if strings.Contains(oc.err.Error(), "context deadline exceeded") {
+				res.Inconclusive = "the Lua VM's 1 s wall-clock budget was exceeded 8 times in a row by a loop-free script (CPU starvation of the worker)"
+				return
+			}
 			if class, ok := luaErrClass(oc.err); ok {
 				res.Count("lua_errors", 1)
 				res.Violate("c15:lua-error:"+blameRef(in, step, class)+":"+class, "the script fails on a legal object, the step can never be applied: "+errStr(oc.err), detail())
@@ -533,7 +544,7 @@ func runOnce(in *caseIn, res *core.CaseResult) {
 		for _, sd := range diffUserConfig(orig[k], end[k]) {
 			d := mk(sd.where, sd.class)
 			d["valueUserHad"], d["valueAfterFinalise"] = sd.want, sd.got
-			res.Violate("c15:restore:"+sd.section+":"+sd.class+":"+kindClass(ref.Kind),
+			res.Violate("c15:restore:"+sd.section+":"+restoreClass(sd.class)+":"+kindClass(ref.Kind),
 				fmt.Sprintf("%s %s: %s not restored exactly at %s (%s): user had %s, after Finalise %s", ref.Kind, ref.Name, sd.section, sd.where, sd.class, trunc(sd.want, 200), trunc(sd.got, 200)), d)
 		}
 		if w, c := exactDiff("", orig[k].Rest, end[k].Rest); w != "" {
@@ -542,6 +553,18 @@ func runOnce(in *caseIn, res *core.CaseResult) {
 			res.Violate("c15:frame:field-outside-spec-labels-annotations-changed:"+kindClass(ref.Kind), fmt.Sprintf("%s %s: %s (%s) after Finalise", ref.Kind, ref.Name, w, c), d)
 		}
 	}
+}
+
+// restoreClass keeps fingerprints per defect rather than per symptom: integers that do not survive a float64,
+// empty containers / nulls changing into each other, and any other content difference.
+func restoreClass(class string) string {
+	switch {
+	case class == "number-beyond-float64-precision":
+		return "int64-precision"
+	case strings.Contains(class, "empty-") || strings.Contains(class, "null"):
+		return "empty-vs-null-vs-absent"
+	}
+	return "content"
 }
 
 func countNulls(v interface{}) int {
